@@ -24,7 +24,16 @@ def data_triples():
     # (now and then a predicate IRI also stands as subject / object, so that patterns repeating a variable across positions have matches)
     s = st.one_of(st.sampled_from(NODES), st.sampled_from(NODES), st.sampled_from(NODES), st.sampled_from(NODES + PREDS))
     o = st.one_of(st.sampled_from(NODES), st.sampled_from(LITS), st.sampled_from(LITS[:3]), st.sampled_from(NODES + PREDS))
-    return st.lists(st.tuples(s, st.sampled_from(PREDS), o).map(list), max_size=8, unique_by=repr)
+    base = st.lists(st.tuples(s, st.sampled_from(PREDS), o).map(list), max_size=8, unique_by=repr)
+
+    def mirrored(ts, pick):
+        # now and then a relation holds both ways (a p b, b p a): solutions that are each other's mirror image
+        if pick is None or not ts:
+            return ts
+        t = ts[pick % len(ts)]
+        m = [t[2], t[1], t[0]]
+        return ts + [m] if t[2][0] != "l" and m not in ts else ts
+    return st.tuples(base, st.one_of(st.none(), st.none(), st.integers(0, 7))).map(lambda p: mirrored(p[0], p[1]))
 
 
 @st.composite
@@ -247,7 +256,7 @@ def patterns(draw, depth=3, dataset=False, pool=None):
     if depth <= 0 or draw(st.integers(0, 9)) < 1:
         # the empty group { } (one empty solution) is a legal leaf too
         return draw(st.one_of(bgp(pool=pool), bgp(pool=pool), bgp(pool=pool), bgp(pool=pool), values_pattern(), st.just(["bgp", []])))
-    kinds = ["join", "opt", "opt-filter", "union", "minus", "filter", "bind", "sub", "join-bgp", "join-values", "join-values-apart"]
+    kinds = ["join", "opt", "opt-filter", "union", "minus", "filter", "bind", "sub", "join-bgp", "join-values", "join-values-apart", "minus-values"]
     if dataset:
         kinds += ["graph", "graph-var", "graph-var-exists", "graph-var-exists"]
     k = draw(st.sampled_from(kinds))
@@ -261,6 +270,16 @@ def patterns(draw, depth=3, dataset=False, pool=None):
         return [k, A, B]
     if k == "join-bgp":
         return ["join", A, draw(bgp(pool=pool))]
+    if k == "minus-values":
+        # MINUS where the shared variables are bound by inline data on one side only
+        scope = sorted(ref.in_scope(A))
+        if not scope:
+            return A
+        vs = draw(st.lists(st.sampled_from(scope), min_size=1, max_size=2, unique=True))
+        terms = [x for t in (pool or []) for x in t if x[0] != "b"] + NODES[:3] + LITS[:4]
+        rows = draw(st.lists(st.lists(st.sampled_from(terms), min_size=len(vs), max_size=len(vs)), min_size=1, max_size=3))
+        V = ["values", vs, rows]
+        return ["minus", A, V] if draw(st.booleans()) else ["minus", V, A]
     if k in ("join-values", "join-values-apart"):
         # inline data over variables the left side binds, with values taken from the data; now and then a row is written twice
         scope = sorted(ref.in_scope(A))
